@@ -764,7 +764,7 @@ def gen_history_case(rnd, preserving=None):
     return {"stream": "scan-history", "files": files, "steps": steps, "verbose": rnd.random() < 0.5, "entry": entry}
 
 
-CAT_RANGE = [(1, 15), (16, 30), (31, 60), (61, 100000)]
+CAT_RANGE = [(3, 15), (16, 30), (31, 60), (61, 100000)]      # 3: shortest function the history generator writes (a one- or two-line function is not a canonical body)
 
 
 def preserving_steps(rnd, cur):
